@@ -8,10 +8,16 @@ Import ListNotations.
 
 (* the decision between plain JSON and cloudpickle, as regenerated from save_util.py *)
 Theorem C09_decision_fragments : forall v,
-  roundtrippable v = sl_roundtrippable (dumps_ok v) (sl_same_scalar (same_vt v (jnorm v))) /\
+  roundtrippable v = sl_roundtrippable (dumps_ok v) (sl_same_scalar (same_vt v (jnorm v)) (negb (same_vt v (jnorm v)))) /\
   is_plain (store_item v) = sl_keep_plain (dumps_ok v) (roundtrippable v).
 Proof. exact (fun v => conj (frag_roundtrippable v) (frag_keep_plain v)). Qed.
 Print Assumptions C09_decision_fragments.
+
+Theorem C09_same_value_tests_fragments : forall eq ty isstr k,
+  (sl_same_scalar eq (negb eq) = eq /\ sl_type_differs ty (negb ty) = negb ty /\ sl_key_plain isstr (negb isstr) = isstr) /\
+  key_eqb k (KS (key_text k)) = sl_key_plain (key_is_str k) (negb (key_is_str k)).
+Proof. exact (fun eq ty isstr k => conj (frag_same_tests eq ty isstr) (key_kept_iff_plain_str k)). Qed.
+Print Assumptions C09_same_value_tests_fragments.
 
 (* _same_value_and_type accepts only identical trees (values and types, nested) *)
 Theorem C09_same_value_and_type_sound : forall a b, same_vt a b = true -> a = b.
@@ -19,7 +25,12 @@ Proof. exact same_vt_sound. Qed.
 Print Assumptions C09_same_value_and_type_sound.
 
 (* MAIN: json_to_data (data_to_json d) = d for ALL attribute dictionaries: tuples, nested dicts with non-string
-   keys, float/int/str subclass scalars, NaN, and everything json.dumps rejects travel as pickled blobs *)
+   keys, float/int/str subclass scalars and keys, NaN, and everything json.dumps rejects travel as pickled blobs.
+   NOTE on strength: this follows from "store plainly only after checking the round trip" (C09_same_value_and_type_sound)
+   for whatever jnorm / dumps_ok are; what ties jnorm and dumps_ok to json is C09_kept_iff_faithful plus the plain-vs-pickled
+   correspondence.  The in-band marker of the archive format (a dict attribute that itself has the key ":serialized:",
+   known finding dict-attribute-with-reserved-serialized-key-not-restored) is NOT in this model: Plain/Pickled are
+   distinct constructors here. *)
 Theorem C09_roundtrip_all : forall d, json_to_data (data_to_json d) = d.
 Proof. exact roundtrip_all. Qed.
 Print Assumptions C09_roundtrip_all.
@@ -28,8 +39,9 @@ Example C09_roundtrip_example :
   let d := [("a"%string, JTuple [JInt 4; JList [JTuple []; JNull]]);
             ("b"%string, JDict [(KI 1, JStr "x"); (KNone, JDict [(KB true, JFloat 3 false)])]);
             ("c"%string, JList [JFloat 1 false; JStr "s"; JDict [(KS "k", JList [JInt 2])]]);
-            ("d"%string, JSub 2 (JInt 5)); ("e"%string, JOpaque 9); ("f"%string, JFloat 0 true)] in
-  map (fun kv => is_plain (snd kv)) (data_to_json d) = [false; false; true; false; false; false]
+            ("d"%string, JSub 2 (JInt 5)); ("e"%string, JOpaque 9); ("f"%string, JFloat 0 true);
+            ("g"%string, JDict [(KSub 4 "pi", JList [JInt 8])])] in
+  map (fun kv => is_plain (snd kv)) (data_to_json d) = [false; false; true; false; false; false; false]
   /\ json_to_data (data_to_json d) = d.
 Proof. split; reflexivity. Qed.
 
